@@ -128,6 +128,9 @@ def It.dec (k : Kind) (it : It) : It :=
 /-- `a.distance_to(b)`  (= b - a) -/
 def It.distanceTo (a b : It) : Int := it2d_distance_to a.x a.y a.w b.x b.y
 
+/-- `a == b`: `iterator_from_2d::equal` (same coordinates and same locator position) -/
+def It.equal (a b : It) : Int := it2d_equal a.x a.y b.x b.y a.p.pos b.p.pos
+
 /-- `a - b` as iterator_facade computes it: `-(a.distance_to(b))` -/
 def It.sub (a b : It) : Int := -(a.distanceTo b)
 
